@@ -617,6 +617,28 @@ pub fn run(ctx: &Ctx) -> i32 {
             details.push(json!({"part": "join", "sketcher": format!("SuperMinHash<{}> m={}", fname, m), "subsets": o.subsets, "executions": o.execs}));
         }
     }
+    // ---- join at sketch sizes around 2^16, on a 4-item alphabet (all 15 subsets)
+    {
+        let small: Vec<u64> = vec![1, 2, 3, 4];
+        for &m in &ctx.pick(vec![65_537usize], vec![65_535, 65_536, 65_537]) {
+            for (fname, o) in [("f64", join_superminhash::<f64>("f64", m, &small)), ("f32", join_superminhash::<f32>("f32", m, &small))] {
+                execs += o.execs;
+                states += o.distinct;
+                if let Some((w, c)) = o.bad {
+                    ctx.violation(&format!("join:SuperMinHash<{}>", fname), &w, c);
+                }
+                details.push(json!({"part": "join", "sketcher": format!("SuperMinHash<{}> m={}", fname, m), "subsets": o.subsets, "executions": o.execs}));
+            }
+            let p = SetSketchParams::new(1.001, m as u64, 20., 65534);
+            let o = join_setsketch::<u16>(p, &format!("(b=1.001,m={},a=20,q=65534)", m), &small);
+            execs += o.execs;
+            states += o.distinct;
+            if let Some((w, c)) = o.bad {
+                ctx.violation("join:SetSketcher<u16>", &w, c);
+            }
+            details.push(json!({"part": "join", "sketcher": format!("SetSketcher<u16> m={}", m), "subsets": o.subsets, "executions": o.execs}));
+        }
+    }
     // ---- join: SuperMinHash with the pass-through hasher on an alphabet that contains item 0 (hash 0)
     {
         let alpha0: Vec<u64> = (0..alphabet.len() as u64).collect();
@@ -714,7 +736,7 @@ pub fn run(ctx: &Ctx) -> i32 {
         "exhaustive": true,
         "evaluations": execs,
         "distinct_nontrivial": states,
-        "rule": "join: all non-empty subsets of a 10 (12) item alphabet (all orders for |S|<=4, four canonical orders above) against the position-wise min (SuperMinHash f32/f64, m in {1,2,5,16,(40)}, item-wise and through one slice call; also with the no-op hasher on an alphabet containing item 0) resp. max (SetSketcher u8/u16/u32, 5 (b,q) sets x 3-5 m) of the REAL single-item sketches, plus low_sketch <= min register; merge: ALL sequences up to depth 4 (5) over 18 ops (3 instances x {2 shared items, 1 own item, 1 overlapping burst} + 6 ordered merges) for 4 parameter sets x {u16,u8}, final state of every instance against a set model (merge = union), estimate monotone on the last op; commutativity/associativity/idempotence/merge=union/streaming-after-merge on all triples of a 16-set family incl. empty sets; refusal for 116 parameter pairs x {u16,u8 (overflowing)} registers differing in exactly one field (b or a by 32..2^20 ulp or 1e-12..1e5 relative - differences below 4 epsilon relative, which the code treats as rounding noise, are not judged; m; q), receiver unchanged at once and in how it sketches the rest of its stream (against a twin that never saw the refused merge); distinct = distinct joined sketches",
+        "rule": "join: all non-empty subsets of a 10 (12) item alphabet (all orders for |S|<=4, four canonical orders above) against the position-wise min (SuperMinHash f32/f64, m in {1,2,5,16,(40)} and, on a 4-item alphabet, m = 65537 (65535, 65536), item-wise and through one slice call; also with the no-op hasher on an alphabet containing item 0) resp. max (SetSketcher u8/u16/u32, 5 (b,q) sets x 3-5 m) of the REAL single-item sketches, plus low_sketch <= min register; merge: ALL sequences up to depth 4 (5) over 18 ops (3 instances x {2 shared items, 1 own item, 1 overlapping burst} + 6 ordered merges) for 4 parameter sets x {u16,u8}, final state of every instance against a set model (merge = union), estimate monotone on the last op; commutativity/associativity/idempotence/merge=union/streaming-after-merge on all triples of a 16-set family incl. empty sets; refusal for 116 parameter pairs x {u16,u8 (overflowing)} registers differing in exactly one field (b or a by 32..2^20 ulp or 1e-12..1e5 relative - differences below 4 epsilon relative, which the code treats as rounding noise, are not judged; m; q), receiver unchanged at once and in how it sketches the rest of its stream (against a twin that never saw the refused merge); distinct = distinct joined sketches",
         "merge_sequences": nseq,
         "merge_depth": depth,
         "details": details,
